@@ -60,7 +60,7 @@ def install(spec: Spec):
         return models.mk_none()
 
     spec.fn('helpers._execute_with_retries', file=F, qual='_execute_with_retries', is_async=True,
-            params={'func': 'py', 'args': 'py', 'kwargs': 'py', 'retries': 'int', 'timeout': 'real', 'wait': 'real',
+            params={'func': 'any', 'args': 'any', 'kwargs': 'any', 'retries': 'int', 'timeout': 'real', 'wait': 'real',
                     'backoff_factor': 'real', 'retry_on': 'any', 'start_time': 'real', 'sem_start': 'real', 'semaphore_limit': 'opt[int]'},
             returns='any',
             requires=[('retries_nonneg', 'retries >= 0', ['C19'])],
@@ -94,4 +94,110 @@ def install(spec: Spec):
                 RaisesClause('CancelledError', label='cancelled', tags=['C19'], ensures=[
                     ('at_most', 'calls - old(calls) <= retries + 1', ['C19']),
                 ]),
+            ])
+
+    # ------------------------------------------------------------------ C20: semaphores
+    spec.field('g$retry_semaphores', 'dict[str,Semaphore]')
+    spec.field('g$active_ops', 'int')
+    spec.field('g$last_overload_check', 'real')
+    g = spec.globals.setdefault(F, {})
+    g['GLOBAL_RETRY_SEMAPHORES'] = ('state', 'g$retry_semaphores')
+    g['_active_retry_operations'] = ('state', 'g$active_ops')
+    g['_last_overload_check'] = ('state', 'g$last_overload_check')
+    g['_overload_check_interval'] = ('const', models.mk_real('5.0'))
+    for lock in ('GLOBAL_RETRY_SEMAPHORE_LOCK', 'MULTIPROCESS_SEMAPHORE_LOCK', '_active_operations_lock'):
+        g[lock] = ('cm', 'null')
+    for fn in ('_get_semaphore_key', '_get_or_create_semaphore', '_calculate_semaphore_timeout', '_acquire_asyncio_semaphore',
+               '_acquire_multiprocess_semaphore', '_execute_with_retries', '_track_active_operations',
+               '_check_system_overload_if_needed', '_check_system_overload'):
+        g[fn] = ('fn', 'helpers.' + fn)
+
+    spec.ghosts['slots_held'] = models.parse_ty('int')   # permits of the decorator's semaphore held by the current call (task-owned)
+
+    spec.fn('helpers._get_or_create_semaphore', file=F, qual='_get_or_create_semaphore',
+            params={'sem_key': 'str', 'semaphore_limit': 'int', 'semaphore_scope': 'str'}, returns='Semaphore',
+            requires=[('not_multiprocess', "semaphore_scope != 'multiprocess'", ['C20'])],
+            modifies=[('g$retry_semaphores', 'MODULE')],
+            ensures=[
+                ('registered', 'sem_key in GLOBAL_RETRY_SEMAPHORES and GLOBAL_RETRY_SEMAPHORES[sem_key] is result', ['C20']),
+                ('same_object_for_same_key', 'implies(sem_key in old(GLOBAL_RETRY_SEMAPHORES), result is old(GLOBAL_RETRY_SEMAPHORES)[sem_key] and result.sem_value == old(result.sem_value))', ['C20']),
+                ('created_with_limit', 'implies(sem_key not in old(GLOBAL_RETRY_SEMAPHORES), fresh_object(result) and result.sem_value == semaphore_limit)', ['C20']),
+                ('other_keys_untouched', "forall(lambda k: implies(k != sem_key, (k in GLOBAL_RETRY_SEMAPHORES) == (k in old(GLOBAL_RETRY_SEMAPHORES)) and implies(k in GLOBAL_RETRY_SEMAPHORES, GLOBAL_RETRY_SEMAPHORES[k] is old(GLOBAL_RETRY_SEMAPHORES)[k])), 'str')", ['C20']),
+            ])
+
+    def acquire_model(ex, n, awaited, recv=None):
+        sem = ex.eval(n.func.value)
+        r = models.sem_acquire(ex, n, awaited, sem) if not awaited else models.sem_acquire_await(ex, sem)
+        if awaited:
+            ex.ghost_set('slots_held', mk_int(ex.ghost('slots_held').term + 1))
+        return r
+
+    def release_model(ex, n, awaited, recv=None):
+        sem = ex.eval(n.func.value)
+        models.sem_release(ex, n, awaited, sem)
+        ex.ghost_set('slots_held', mk_int(ex.ghost('slots_held').term - 1))
+        return models.mk_none()
+
+    spec.fn('helpers._acquire_asyncio_semaphore', file=F, qual='_acquire_asyncio_semaphore', is_async=True,
+            params={'semaphore': 'Semaphore', 'sem_timeout': 'real', 'sem_key': 'str', 'semaphore_lax': 'bool',
+                    'semaphore_limit': 'int', 'timeout': 'real', 'sem_start': 'real'}, returns='bool',
+            modifies=[('sem_value', '*')], ghost_modifies=['slots_held'], interference='helpers',
+            callsites={'semaphore.acquire': {'model': acquire_model, 'writes': ['sem_value'], 'ghost_writes': ['slots_held'], 'suspends': True}},
+            ensures=[
+                ('acquired_iff_true', 'slots_held == old(slots_held) + (1 if result else 0)', ['C20']),
+                ('false_only_if_lax', 'implies(not result, semaphore_lax)', ['C20']),
+            ],
+            raises=[
+                RaisesClause('TimeoutError', label='timeout', tags=['C20'], ensures=[
+                    ('holds_nothing', 'slots_held == old(slots_held)', ['C20']),
+                    ('only_if_not_lax', 'not semaphore_lax', ['C20'])]),
+                RaisesClause('CancelledError', label='cancelled', tags=['C20'], ensures=[
+                    ('holds_nothing', 'slots_held == old(slots_held)', ['C20'])]),
+            ])
+
+    spec.fn('helpers._track_active_operations', file=F, qual='_track_active_operations',
+            params={'increment': 'bool'}, returns='NoneType', modifies=[('g$active_ops', 'MODULE')])
+
+    spec.fn('helpers._check_system_overload', file=F, qual='_check_system_overload', trusted=True,
+            params={}, returns='tuple[bool,str]',
+            notes='diagnostic (psutil); assumed to raise nothing and to write no bus/semaphore state: its body is try/except Exception '
+                  'around psutil calls, after `assert psutil is not None` which holds because PSUTIL_AVAILABLE is set only after the import')
+
+    spec.fn('helpers._check_system_overload_if_needed', file=F, qual='_check_system_overload_if_needed',
+            params={}, returns='NoneType', modifies=[('g$last_overload_check', 'MODULE')])
+
+    spec.fn('helpers._acquire_multiprocess_semaphore', trusted=True, is_async=True,
+            params={'semaphore': 'any', 'sem_timeout': 'real', 'sem_key': 'str', 'semaphore_lax': 'bool', 'semaphore_limit': 'int', 'timeout': 'real'},
+            returns='tuple[bool,any]', requires=[('out_of_reach', 'False', ['C20'])],
+            notes="semaphore_scope='multiprocess' (file locks, threads) is out of the engine's reach: never entered under the wrapper's precondition")
+
+    spec.interference['helpers'] = __import__('pyvc.spec', fromlist=['Interference']).Interference(
+        'helpers', havoc=['sem_value', 'g$retry_semaphores', 'g$active_ops', 'g$last_overload_check'])
+
+    def body_pre(ex, n):
+        # the wrapped function is entered only holding a slot, or in the documented lax-timeout case, or without a limit
+        lim = ex.lookup('semaphore_limit')
+        lax = ex.lookup('semaphore_lax')
+        held = ex.ghost('slots_held').term == ex.entry['ghost']['slots_held'].term + 1
+        ex.oblige('callsite:_execute_with_retries/requires', 'body_only_with_slot_or_lax',
+                  z3.Or(lim.term == models.NONE, held, lax.term), ['C20'])
+
+    spec.fn('helpers.retry.wrapper', file=F, qual='retry.<locals>.decorator.<locals>.wrapper', is_async=True,
+            params={'args': 'list[any]', 'kwargs': 'any'},
+            free={'func': 'any', 'wait': 'real', 'retries': 'int', 'timeout': 'real', 'retry_on': 'any', 'backoff_factor': 'real',
+                  'semaphore_limit': 'opt[int]', 'semaphore_name': 'opt[str]', 'semaphore_lax': 'bool', 'semaphore_scope': 'str',
+                  'semaphore_timeout': 'opt[real]'},
+            returns='any', interference='helpers',
+            requires=[('retries_nonneg', 'retries >= 0', ['C19']), ('not_multiprocess', "semaphore_scope != 'multiprocess'", ['C20'])],
+            modifies=[('sem_value', '*'), ('g$retry_semaphores', '*'), ('g$active_ops', '*'), ('g$last_overload_check', '*')],
+            ghost_modifies=['calls', 'sleeps', 'last_exc', 'last_result', 'slots_held'],
+            callsites={'semaphore.release': {'model': release_model, 'writes': ['sem_value'], 'ghost_writes': ['slots_held']},
+                       '_execute_with_retries': {'pre': body_pre}},
+            exits_ensure=[('released_exactly_once_iff_acquired', 'slots_held == old(slots_held)', ['C20'])],
+            ensures=[('calls_made', 'calls >= old(calls) + 1', ['C19'])],
+            raises=[
+                RaisesClause('Exception', label='failure', tags=['C19', 'C20']),
+                RaisesClause('TimeoutError', label='acquire_timeout', tags=['C20'], origin='call:helpers._acquire_asyncio_semaphore',
+                             ensures=[('function_not_run', 'calls == old(calls) and not semaphore_lax', ['C20'])]),
+                RaisesClause('CancelledError', label='cancelled', tags=['C19', 'C20']),
             ])
